@@ -133,7 +133,7 @@ def execute(case):
         if dt in ("int8",) and n > 127:
             continue
         runs[dt] = one_run(c, label(shape, dt), dt)
-    if case.get("layouts"):
+    if case.get("layouts") and len(shape) > 0:
         base = label(shape, "float64")
         # Fortran-ordered (transposed view) input
         f = np.asfortranarray(base)
